@@ -613,6 +613,10 @@ func opqOf(cls, id int) any {
 		v = (*stackage.Stack)(nil)
 	case 21: // C20: nil pointer to the native Condition type
 		v = (*stackage.Condition)(nil)
+	case 22: // non-nil pointer to a zero-valued native Stack (also what a freed *Stack looks like)
+		v = &stackage.Stack{}
+	case 23: // non-nil pointer to a zero-valued native Condition
+		v = &stackage.Condition{}
 	default:
 		v = &Opq{Cls: cls, ID: id}
 	}
